@@ -209,11 +209,13 @@ def apply_inline(line, site):
 
 
 LINE_EDITS = ["blank-before", "semicolon-comment-before", "block-comment-before", "multiline-comment-before", "indent-spaces", "indent-tab",
-              "trailing-spaces", "eol-comment", "star-comment-before", "doc-comment-before", "tricky-comment-before", "eol-tricky-comment"]
+              "trailing-spaces", "eol-comment", "star-comment-before", "doc-comment-before", "tricky-comment-before", "eol-tricky-comment", "opener-in-semicolon-comment-before",
+              "eol-opener-comment"]
 COMMENT_TEXT = {
     "star-comment-before": "/***/",
     "doc-comment-before": "/** documentation **/",
     "tricky-comment-before": "/* a * b ** c / d 'q' \"dq\" { } ; .db 1 ****/",
+    "opener-in-semicolon-comment-before": "; graphics come from gfx/*.bin (a block-comment opener inside a line comment)",
 }
 
 
@@ -229,8 +231,8 @@ def all_edits(lines):
         if not line.strip():
             continue
         for kind in LINE_EDITS:
-            if kind in ("indent-spaces", "indent-tab", "trailing-spaces", "eol-comment", "eol-tricky-comment"):
-                col = 10 ** 6 if kind in ("trailing-spaces", "eol-comment", "eol-tricky-comment") else -2
+            if kind in ("indent-spaces", "indent-tab", "trailing-spaces", "eol-comment", "eol-tricky-comment", "eol-opener-comment"):
+                col = 10 ** 6 if kind in ("trailing-spaces", "eol-comment", "eol-tricky-comment", "eol-opener-comment") else -2
             else:
                 col = -1
             edits.append((i, col, kind, None))
@@ -263,6 +265,8 @@ def apply_edits(lines, edits):
             out.append("\0NOFINALNEWLINE")
         elif kind == "eol-comment":
             out[i] = out[i] + " ; trailing comment"
+        elif kind == "eol-opener-comment":
+            out[i] = out[i] + " ; see data/*.inc"
         elif kind == "eol-tricky-comment":
             out[i] = out[i] + " ; it's /* not a block */ 'x' { lda #1 } ;; **/"
         elif kind in COMMENT_TEXT:
